@@ -9,7 +9,14 @@
 (* priors), unit-cube coordinates are exact pairs [n, d].                  *)
 (*   setup : kinds[i], par[i] = [a, b] (bounds or mean/std, scaled), nfit, *)
 (*           proj = projection of all tracked parameters (fitted first,    *)
-(*           in fit order, then unfitted ones)                             *)
+(*           in fit order, then unfitted ones);                            *)
+(*           orole[i] = "model" | "offset" | "scale": where the i-th       *)
+(*           fitted parameter lives (the forward model, or the OBSERVATION *)
+(*           as an additive offset [ppm] / multiplicative scale of its     *)
+(*           spectrum; the observation's come after the model's);          *)
+(*           d0[b] = the observation's base spectrum in integer units of   *)
+(*           1e-7 (<<>> for an observation without parameters), off0 / sc0 *)
+(*           = initial offset / scale (scaled by S)                        *)
 (*   prior : u[i], z[i] (scaled normal quantile of u[i], harness table),   *)
 (*           out[i] scaled result of the prior callback                    *)
 (*   like  : x[i] scaled point handed to the callback, before / after      *)
@@ -19,13 +26,18 @@
 (*           ret = "num" | "nan" | "raise",                                *)
 (*           chi = round(-2 (ret - C) * 10^4), zs[b] = round(100 z_b) of   *)
 (*           the oracle's residuals z_b = (data_b - binned_b)/sigma_b      *)
-(*           over the comparable (non-NaN) bins                            *)
+(*           over the comparable (non-NaN) bins;                           *)
+(*           dat8[b] = the data side of those residuals in units of        *)
+(*           1e-7 / 8: the observation's spectrum for THIS call must be    *)
+(*           d0[b] * scale + 10 * offset[ppm] at the scale / offset the    *)
+(*           vector x of this call describes (initial values if unfitted)  *)
+(*           -- never the values of an earlier call or of compute_fit time *)
 (* A trace stops at its first rejected event (stateful); every rejected    *)
 (* tid is printed as <<"BAD", ..>>.                                        *)
 (***************************************************************************)
 EXTENDS Integers, Sequences, FiniteSets, TLC, Json, IOUtils, TLCExt, LikeRules
 VARIABLES l, tid, st, dead
-\* st = [kinds, par, nfit, proj, memo]   memo: set of <<x, chi>> of finite valid (oc = "ok") calls seen in this trace
+\* st = [kinds, par, nfit, proj, orole, d0, off0, sc0, memo]   memo: set of <<x, chi>> of finite valid (oc = "ok") calls seen in this trace
 TraceLog == ndJsonDeserialize(IOEnv.TRACE_FILE)
 
 RECURSIVE SumSq(_), SumAbs(_)
@@ -41,8 +53,20 @@ PriorOk(s, e) ==
              ELSE \* mean + std * Z(u), z scaled by S: tolerance covers the rounding of z
                   Close(e.out[i], 1, GaussSample(a, b, Norm(e.z[i], e.S)), 2 + (Abs(s.par[i][2]) \div e.S))
 
+\* the data side of chi2 follows the vector of this call (observation parameters: offset [ppm], scale)
+ObsValue(s, e, role, init) == LET P == {i \in 1..s.nfit : s.orole[i] = role}
+                              IN  IF P = {} THEN init ELSE e.x[CHOOSE i \in P : TRUE]
+DataOk(s, e) ==
+    \/ s.d0 = <<>> /\ e.dat8 = <<>>
+    \/ /\ s.d0 # <<>> /\ Len(e.dat8) = Len(s.d0)
+       /\ \A b \in 1..Len(s.d0) :          \* dat8 / 8 = d0 * (xs / S) + 10 * (xo / S)
+             e.dat8[b] * (e.S \div 8) = s.d0[b] * ObsValue(s, e, "scale", s.sc0) + 10 * ObsValue(s, e, "offset", s.off0)
+\* the observation's fitted parameters come after the model's
+ObsLast(s) == \A i \in 1..s.nfit, j \in 1..s.nfit : (i < j /\ s.orole[i] # "model") => s.orole[j] # "model"
+
 LikeOk(s, e) ==
     LET n == Len(s.proj) IN
+    /\ ObsLast(s) /\ DataOk(s, e)
     /\ Len(e.x) = s.nfit /\ Len(e.before) = n /\ Len(e.after) = n
     /\ \A j \in 1..n : Abs(e.before[j] - s.proj[j]) <= 1                 \* nobody wrote between the calls
     /\ \A i \in 1..s.nfit : Abs(e.after[i] - e.x[i]) <= 1                  \* WrittenIsPriorOfX, OrderIsFitOrder
@@ -54,7 +78,9 @@ LikeOk(s, e) ==
           Abs(e.chi - SumSq(e.zs)) <= SumAbs(e.zs) + Len(e.zs) + 2        \* ValidEqualsGaussian (structure level)
     /\ (e.ret = "num" /\ e.oc = "ok") => \A m \in s.memo : m[1] = e.x => Abs(m[2] - e.chi) <= 1   \* NoCarryOver
 
-Init == l = 1 /\ tid = -1 /\ dead = -1 /\ st = [kinds |-> <<>>, par |-> <<>>, nfit |-> 0, proj |-> <<>>, memo |-> {}]
+Init == l = 1 /\ tid = -1 /\ dead = -1
+        /\ st = [kinds |-> <<>>, par |-> <<>>, nfit |-> 0, proj |-> <<>>, orole |-> <<>>, d0 |-> <<>>, off0 |-> 0, sc0 |-> 0,
+                 memo |-> {}]
 Bad(e, why) == PrintT(<<"BAD", ToJson([l |-> l, tid |-> e.tid, id |-> e.id, why |-> why])>>)
 Step ==
     /\ l <= Len(TraceLog)
@@ -62,7 +88,8 @@ Step ==
     /\ LET e == TraceLog[l] IN
        IF e.ev = "setup"
        THEN /\ tid' = e.tid /\ dead' = dead
-            /\ st' = [kinds |-> e.kinds, par |-> e.par, nfit |-> e.nfit, proj |-> e.proj, memo |-> {}]
+            /\ st' = [kinds |-> e.kinds, par |-> e.par, nfit |-> e.nfit, proj |-> e.proj, orole |-> e.orole, d0 |-> e.d0,
+                      off0 |-> e.off0, sc0 |-> e.sc0, memo |-> {}]
        ELSE IF e.tid = dead \/ e.tid # tid
        THEN UNCHANGED <<tid, st, dead>>
        ELSE IF e.ev = "prior"
